@@ -809,14 +809,19 @@ def check_property(prop, tier, only=None, keep=None, jobs=None):
             seen.add(l)
     wall = time.time() - t0
     write_evidence(prop, tier, seed, spec, insts, outcomes, wall, nviol,
-                   exit_code, sorted(known_seen), my_findings)
+                   exit_code, sorted(known_seen), my_findings, partial=bool(only))
     log("[%s] tier=%s exit=%d wall=%.1fs instances=%d" % (
         prop, tier, exit_code, wall, len(outcomes)))
     return exit_code
 
 
 def write_evidence(prop, tier, seed, spec, insts, outcomes, wall, nviol,
-                   exit_code, known_seen, my_findings):
+                   exit_code, known_seen, my_findings, partial=False):
+    global EVIDENCE
+    if partial and not os.environ.get("VP_EVIDENCE_DIR"):
+        # a run restricted with --only is a development aid: it must not replace
+        # the evidence of the last complete run
+        EVIDENCE = os.path.join(VERIF, "evidence", "partial")
     os.makedirs(EVIDENCE, exist_ok=True)
     mains = [o for o in outcomes if not o.get("confirm")]
     obligations = sum(o["obligations"] - len(o["witnesses"]) for o in mains)
